@@ -528,6 +528,12 @@ func c16Scenarios(tier string) []*ConcScenario {
 		{"sizes-vs-flush", tiny, G1, [][]Op{{sizeOps}, {P(0, 3), opF}, {{Kind: OpPriGC, A: 85}}}},
 		{"iterate-vs-put", base, []Op{P(0, 1), P(4, 1), opF}, [][]Op{{{Kind: OpIterate}}, {P(1, 2), P(0, 3)}}},
 	}
+	cidc := cfg("cid", false, 8, 48, bigFile)
+	progs = append(progs,
+		prog{"cid-put-get-flush", cidc, []Op{P(0, 1), P(1, 1)}, [][]Op{{P(0, 2), G(1)}, {P(1, 2), H(0)}, {opF}}},
+		prog{"remove-vs-reads-vs-indexgc", tiny, G1, [][]Op{{R(0), R(1)}, {G(0), Z(1), H(4)}, {{Kind: OpIdxGC, B: false}}}},
+		prog{"iterate-vs-flush-vs-gc", tiny, G1, [][]Op{{{Kind: OpIterate}}, {P(4, 3), opF}, {{Kind: OpPriGC, A: 0}}}},
+	)
 	bp := prog{"backpressure-put-vs-flush", base, nil, [][]Op{{P(0, 1)}, {opF}, {P(4, 1)}}}
 	progs = append(progs, bp)
 	bound := 1
@@ -535,7 +541,6 @@ func c16Scenarios(tier string) []*ConcScenario {
 		bound = 2
 		progs = append(progs,
 			prog{"both-gcs", tiny, G1, [][]Op{{{Kind: OpIdxGC, B: true}}, {{Kind: OpPriGC, A: 0}}, {P(4, 3), opF}}},
-			prog{"cid-put-get-flush", cfg("cid", false, 8, 48, bigFile), []Op{P(0, 1)}, [][]Op{{P(0, 2), G(1)}, {P(1, 2)}, {opF}}},
 		)
 	}
 	var scs []*ConcScenario
@@ -549,4 +554,124 @@ func c16Scenarios(tier string) []*ConcScenario {
 		scs = append(scs, sc)
 	}
 	return scs
+}
+
+
+// freeRunRace executes the same scenario bodies without any scheduler, many
+// times, in the same -race binary: the guidance's "separate, free-running run
+// of the same harness bodies". The enumerated schedules only switch threads
+// at lock acquisitions and file-system calls; an access pair that conflicts
+// *inside* such a segment (for instance a slice obtained under a lock and read
+// after the unlock, against an in-place write) is only seen by the detector
+// when the threads really run in parallel. Reports of this pass are real
+// races (the detector has no false positives); its silence proves nothing.
+func freeRunRace(c *Collector, scs []*ConcScenario, iterations int) {
+	root := os.Getenv("VERIF_RACE_DIR")
+	if root == "" {
+		root = os.TempDir()
+	}
+	prev := runtime.GOMAXPROCS(4)
+	defer runtime.GOMAXPROCS(prev)
+	for si, sc := range scs {
+		if si%c.job.NShards != c.job.Shard {
+			continue
+		}
+		for it := 0; it < iterations && !c.expired(); it++ {
+			vos.SetBackend(nil)
+			setMapOrder(sc.Cfg)
+			rDirCounter++
+			dir := filepath.Join(root, fmt.Sprintf("f%d-%d", os.Getpid(), rDirCounter))
+			os.MkdirAll(dir, 0o755)
+			keys, _ := universe(sc.Cfg)
+			opts := []store.Option{store.IndexBitSize(sc.Cfg.Bits), store.IndexFileSize(sc.Cfg.IdxFS), store.PrimaryFileSize(sc.Cfg.PriFS),
+				store.GCInterval(1000 * time.Hour), store.GCTimeLimit(0), store.SyncInterval(1000 * time.Hour)}
+			if b, ok := sc.Extra["burst"].(int); ok {
+				opts = append(opts, store.BurstRate(uint64(b)))
+			}
+			st, err := store.OpenStore(context.Background(), sc.Cfg.primaryType(), filepath.Join(dir, "data"), filepath.Join(dir, "index"), sc.Cfg.Immutable, opts...)
+			if err != nil {
+				os.RemoveAll(dir)
+				continue
+			}
+			call := raceCaller(st, keys)
+			for _, op := range sc.Init {
+				call(op)
+			}
+			if r, ok := sc.Extra["flushRate"].(float64); ok {
+				st.VerifSetFlushRate(r)
+			}
+			var wg sync.WaitGroup
+			done := make(chan struct{})
+			for _, prog := range sc.Threads {
+				prog := prog
+				wg.Add(1)
+				go func() {
+					defer wg.Done()
+					for rep := 0; rep < 150; rep++ {
+						for _, op := range prog {
+							call(op)
+						}
+					}
+				}()
+			}
+			go func() { wg.Wait(); close(done) }()
+			// a writer waiting for a flush notice is released by flushes
+			tick := time.NewTicker(2 * time.Millisecond)
+		wait:
+			for {
+				select {
+				case <-done:
+					break wait
+				case <-tick.C:
+					if sc.Extra["flushRate"] != nil {
+						st.Primary().Put(keys[len(keys)-1].Raw, []byte("wake"))
+						st.Flush()
+					}
+				}
+			}
+			tick.Stop()
+			st.Close()
+			os.RemoveAll(dir)
+			c.res.Evaluations++
+			c.count("free_running_race_executions", 1)
+			fmt.Fprintf(os.Stderr, "VERIF-EXEC-END scenario=%q free-running iteration=%d\n", sc.Name, it)
+		}
+	}
+}
+
+func raceCaller(st *store.Store, keys []Key) func(op Op) {
+	return func(op Op) {
+		defer func() { recover() }()
+		switch op.Kind {
+		case OpPut:
+			st.Put(keys[op.K].Raw, values[op.V])
+		case OpRemove:
+			st.Remove(keys[op.K].Raw)
+		case OpGet:
+			st.Get(keys[op.K].Raw)
+		case OpHas:
+			st.Has(keys[op.K].Raw)
+		case OpGetSize:
+			st.GetSize(keys[op.K].Raw)
+		case OpFlush:
+			st.Flush()
+		case OpIdxGC:
+			st.Index().VerifGC(context.Background(), op.B)
+		case OpPriGC:
+			if mp, ok := st.Primary().(*mhprimary.MultihashPrimary); ok {
+				mp.GC(context.Background(), int64(op.A))
+			}
+		case OpIterate:
+			it := st.NewIterator()
+			for i := 0; i < 100; i++ {
+				if _, _, err := it.Next(); err != nil {
+					break
+				}
+			}
+		case OpReads:
+			st.StorageSize()
+			st.IndexStorageSize()
+			st.SetFileCacheSize(op.A)
+		}
+	}
 }
